@@ -146,7 +146,20 @@ def materialise(case, base: Path):
     root = base / ROOTNAME
     root.mkdir(parents=True)
     log = str(base / "log.txt")
-    (root / "pyproject.toml").write_text("[tool.pytask.ini_options]\n")
+    toml = "[tool.pytask.ini_options]\n"
+    cf = case.get("cfg_file") or {}
+
+    def tv(values, form):
+        q = [json.dumps(v) for v in values]
+        return q[0] if form == "str" and len(q) == 1 else "[" + ", ".join(q) + "]"
+
+    if cf.get("ignore"):
+        toml += f"ignore = {tv(case['ignore'], cf['ignore'])}\n"
+    if cf.get("paths"):
+        toml += f"paths = {tv([p if p else '.' for p in case['paths']], cf['paths'])}\n"
+    if cf.get("task_files") and case["task_files"] is not None:
+        toml += f"task_files = {tv(case['task_files'], 'list')}\n"
+    (root / "pyproject.toml").write_text(toml)
     for d in case["dirs"]:
         (root / d).mkdir(parents=True, exist_ok=True)
     for rel, prog in case["files"].items():
@@ -233,9 +246,12 @@ def run_cases(cases, nworkers=8, hashseed0=0, servers=None):
             base = Path(os.path.realpath(base))
             root, log = materialise(case, base)
             dirs = [str(root)] + [str(root / d) for d in case["dirs"]]
+            cf = case.get("cfg_file") or {}
             job = {"root": str(root),
-                   "paths": [str(base / p[1:]) if p.startswith("@") else (str(root / p) if p else str(root)) for p in case["paths"]],
-                   "ignore": case["ignore"], "task_files": case["task_files"], "log": log,
+                   "paths": ([str(root)] if cf.get("paths") else
+                             [str(base / p[1:]) if p.startswith("@") else (str(root / p) if p else str(root)) for p in case["paths"]]),
+                   "ignore": None if cf.get("ignore") else case["ignore"],
+                   "task_files": None if cf.get("task_files") else case["task_files"], "log": log,
                    "probe_modules": probe_names(case), "listdirs": dirs,
                    "ptasks": [dict(pt, file=ptask_file(case, pt, root, base)) for pt in case.get("ptasks") or []]}
             res = servers[i % len(servers)].run(job)
@@ -967,6 +983,17 @@ def random_case(rng, cid, focus=None):
     case = {"id": cid, "dirs": dirs, "files": files, "paths": paths, "ignore": ignore, "task_files": task_files}
     if links:
         case["links"] = links
+    elif rng.random() < 0.2:
+        # the same options given in pyproject.toml instead of build(...): a single value as a string or as a list
+        cf = {}
+        if ignore:
+            cf["ignore"] = "str" if len(ignore) == 1 and rng.random() < 0.7 else "list"
+        if rng.random() < 0.4:
+            cf["paths"] = "str" if len(paths) == 1 and rng.random() < 0.6 else "list"
+        if task_files is not None and rng.random() < 0.5:
+            cf["task_files"] = "list"
+        if cf:
+            case["cfg_file"] = cf
     return case
 
 
@@ -1051,38 +1078,98 @@ def prog_case(rng, cid):
 GEN_FAULTS = ["mixed", "dir-dependency", "id-clash", "bad-after", "name-not-str"]
 
 
+def child_ids(gen_stmt):
+    """Final names of the tasks one generator defines (documented scheme: a repeated name gets name[id] / name[i])."""
+    groups: dict = {}
+    for i in gen_stmt["inner"]:
+        if i.get("fault") in ("bad-after", "name-not-str"):
+            continue
+        groups.setdefault(i.get("name") or i["fname"], []).append(i)
+    out = []
+    for name, members in groups.items():
+        if len(members) == 1:
+            out.append(name)
+        else:
+            out += [f"{name}[{m['id'] if m.get('id') is not None else j}]" for j, m in enumerate(members)]
+    return out
+
+
+def static_names(prog):
+    """Names of the tasks a module declares statically: unwrapped task_ functions and the final ids of @task functions
+    (the generators themselves included)."""
+    wrapped = {st["obj"] for st in prog["stmts"] if st["k"] == "wrap"}
+    binds = {}
+    for st in prog["stmts"]:
+        if st["k"] == "def" and st.get("bind"):
+            binds[st["bind"]] = st["obj"]
+        elif st["k"] == "value":
+            binds[st["bind"]] = None
+    names = {n for n, o in binds.items() if o is not None and o not in wrapped and n.startswith("task_")}
+    return names | {i for _, i, _ in declared_ids(prog)[0]}
+
+
 def gen_faults(case):
-    """Children of task generators that cannot be collected (declared by the harness): the build must not end with 0."""
+    """Reasons, declared by the harness, why a build with task generators must not end with exit code 0: a defined task
+    cannot be collected, or its name is already used by a task of the module or by a task of another generator."""
     out = []
     for rel, pr in case["files"].items():
-        for st in (pr or {}).get("stmts", []):
-            if st["k"] == "gen":
-                out += [f"{rel}: generated task {i['fname']}: {i['fault']}" for i in st["inner"] if i.get("fault")]
+        if pr is None:
+            continue
+        gens = [st for st in pr["stmts"] if st["k"] == "gen"]
+        if not gens:
+            continue
+        out += [f"{rel}: generated task {i['fname']}: {i['fault']}" for st in gens for i in st["inner"] if i.get("fault")]
+        taken = static_names(pr)
+        ids = [child_ids(st) for st in gens]
+        for k, mine in enumerate(ids):
+            others = {x for j, o in enumerate(ids) if j != k for x in o}
+            for n in mine:
+                if n in taken:
+                    out.append(f"{rel}: generated task {n}: name of a task the module declares")
+                elif n in others:
+                    out.append(f"{rel}: generated task {n}: name of a task another generator defines")
     return out
 
 
 def gen_case(rng, cid):
-    """Task generators (oracle only): a generator creates, while it runs, @task functions — with a base name that also
-    exists in a same-named module of another directory, or not; some children cannot be collected (both priorities, a
-    directory as dependency, two children with one id, a bad `after`, a name that is no string)."""
+    """Task generators (oracle only): one or two generators in a module create, while they run, @task functions — with a
+    base name that also exists in a same-named module of another directory, in the same module (a task_ function, an
+    @task name), among the children of the other generator, or not at all; some children cannot be collected (both
+    priorities, a directory as dependency, two children with one id, a bad `after`, a name that is no string)."""
     g = Gen(rng)
-    n = g.obj()
-    inner_names = rng.choice([["task_x"], ["task_x", "task_y"], ["made"], ["task_x", "task_x"], ["made", "task_y", "task_z"]])
-    inner = []
-    for j, nm in enumerate(inner_names):
-        inner.append({"fname": nm, "tag": g.obj(), "name": None, "id": (str(j) if inner_names.count(nm) > 1 else None), "kwargs": None})
-    if rng.random() < 0.45:
-        f = rng.choice(GEN_FAULTS)
-        if f == "id-clash":
-            if len(inner) >= 2:
-                inner[1]["fname"] = inner[0]["fname"]
-                inner[0]["id"] = inner[1]["id"] = "same"
-                inner[0]["fault"] = inner[1]["fault"] = "id-clash"
-        else:
-            rng.choice(inner)["fault"] = f
-    gen = {"k": "gen", "obj": n, "fname": "task_gen", "tag": n, "inner": inner}
+    pool = ["task_x", "task_y", "made", "task_z"]
+    stmts = []
+    ngen = rng.choice([1, 1, 2, 2, 3])
+    for k in range(ngen):
+        n = g.obj()
+        inner_names = rng.choice([["task_x"], ["task_x", "task_y"], ["made"], ["task_x", "task_x"], ["made", "task_y", "task_z"], [rng.choice(pool)]])
+        inner = []
+        for j, nm in enumerate(inner_names):
+            inner.append({"fname": nm, "tag": g.obj(), "name": None, "id": (str(j) if inner_names.count(nm) > 1 else None), "kwargs": None})
+        if rng.random() < 0.3:
+            f = rng.choice(GEN_FAULTS)
+            if f == "id-clash":
+                if len(inner) >= 2:
+                    inner[1]["fname"] = inner[0]["fname"]
+                    inner[0]["id"] = inner[1]["id"] = "same"
+                    inner[0]["fault"] = inner[1]["fault"] = "id-clash"
+            else:
+                rng.choice(inner)["fault"] = f
+        if rng.random() < 0.15 and inner[0].get("fault") != "id-clash":
+            inner[0]["name"] = rng.choice(pool)          # @task(name=…) on a child
+        stmts.append({"k": "gen", "obj": n, "fname": "task_gen" if k == 0 else f"task_gen{k + 1}", "tag": n, "inner": inner})
+    # tasks the module declares statically, before or after the generators
+    static = []
+    r = rng.random()
+    if r < 0.25:
+        x = rng.choice(pool)
+        static = [g.mkdef(x, x, style="def")]
+    elif r < 0.4:
+        d = g.mkdef("helper_fn", "helper_fn", style="def")
+        static = [d, g.wrap(d["obj"], rng.choice(pool))]
+    stmts = static + stmts if rng.random() < 0.5 else stmts + static
     stem = rng.choice(["task_m.py", "task_m.py", "task_n.py"])
-    files = {"b/" + stem: {"imports": [], "stmts": [gen]},
+    files = {"b/" + stem: {"imports": [], "stmts": stmts},
              "a/task_m.py": {"imports": [], "stmts": [g.mkdef(x, x, style="def") for x in rng.choice([["task_x"], ["task_x", "task_z"], ["task_q"]])]}}
     if rng.random() < 0.4:
         files["c/task_m.py"] = {"imports": [], "stmts": [g.mkdef("task_x", "task_x", style="def")]}
@@ -1156,6 +1243,14 @@ def witness_cases():
         {"k": "gen", "obj": n, "fname": "task_gen", "tag": n, "inner": [
             {"fname": "task_x", "tag": g.obj(), "name": None, "id": None, "kwargs": None},
             {"fname": "task_y", "tag": g.obj(), "name": None, "id": None, "kwargs": None, "fault": "mixed"}]}]}}})
+    # former F39 (fix 6571c4f): a generated task named like a task of the module / like a task of another generator
+    n, x = g.obj(), g.mkdef("task_x", "task_x", style="def")
+    out.append({"id": "w-f39-static", "dirs": [], "paths": [""], "ignore": [], "task_files": None, "files": {"task_m.py": {"imports": [], "stmts": [
+        x, {"k": "gen", "obj": n, "fname": "task_gen", "tag": n, "inner": [{"fname": "child", "tag": g.obj(), "name": "task_x", "id": None, "kwargs": None}]}]}}})
+    n1, n2 = g.obj(), g.obj()
+    out.append({"id": "w-f39-two-generators", "dirs": [], "paths": [""], "ignore": [], "task_files": None, "files": {"task_m.py": {"imports": [], "stmts": [
+        {"k": "gen", "obj": n1, "fname": "task_gen", "tag": n1, "inner": [{"fname": "task_y", "tag": g.obj(), "name": None, "id": None, "kwargs": None}]},
+        {"k": "gen", "obj": n2, "fname": "task_gen2", "tag": n2, "inner": [{"fname": "task_y", "tag": g.obj(), "name": None, "id": None, "kwargs": None}]}]}}})
     d = g.mkdef("helped", "helped", style="def")
     out.append({"id": "w-ok-leftover", "dirs": [], "paths": [""], "ignore": [], "task_files": None, "files": {
         "helper_a.py": {"imports": [], "stmts": [d, g.wrap(d["obj"])]},
@@ -1215,7 +1310,7 @@ def pmatch_campaign(ctx, n_random):
 def canon(case):
     return [sorted(case["dirs"]), {k: (v if v is None else [v.get("imports"), [{kk: vv for kk, vv in s.items() if kk not in ("obj", "tag")} for s in v["stmts"]]])
                                    for k, v in sorted(case["files"].items())}, case["paths"], case["ignore"], case["task_files"],
-            case.get("links"), [[pt["src"], pt["attr"], pt["kind"], pt.get("name"), pt.get("share")] for pt in case.get("ptasks") or []]]
+            case.get("links"), case.get("cfg_file"), [[pt["src"], pt["attr"], pt["kind"], pt.get("name"), pt.get("share")] for pt in case.get("ptasks") or []]]
 
 
 def nontrivial(case, ob, exp):
@@ -1378,7 +1473,7 @@ def campaign(ctx):
         cases.append(random_case(rng, f"r{i}"))
     for i in range(ctx.scale(14, 150)):
         cases.append(prog_case(rng, f"p{i}"))
-    for i in range(ctx.scale(8, 80)):
+    for i in range(ctx.scale(14, 120)):
         cases.append(gen_case(rng, f"g{i}"))
     nworkers = 8 if not ctx.thorough else 12
     obs = run_cases(cases, nworkers, hashseed0=ctx.seed * 16)
